@@ -456,7 +456,11 @@ class Function:
                     for callback, info in list(cls.task2cb[task]["cb"].items()):
                         ast_ctx, args, kwargs = info
                         try:
-                            await ast_ctx.call_func(callback, None, *args, **kwargs)
+                            # callbacks of different tasks can be suspended at the same time: each call gets
+                            # its own interpreter context, as trigger runs and task.create do
+                            cb_ctx = type(ast_ctx)(ast_ctx.name, ast_ctx.get_global_ctx())
+                            cls.install_ast_funcs(cb_ctx)
+                            await cb_ctx.call_func(callback, None, *args, **kwargs)
                         except Exception as e:
                             # a failing callback must not keep the others from running
                             ast_ctx.log_exception(e)
